@@ -17,3 +17,11 @@ package parser
 //@   ensures strconv.decOK(string(prec.Str)) && strconv.decVal(string(prec.Str)) > 0 ==> result.Precedence == strconv.decVal(string(prec.Str)) && p.errs.hasErrors == old(p.errs.hasErrors)
 //@   ensures !(strconv.decOK(string(prec.Str)) && strconv.decVal(string(prec.Str)) > 0) ==> p.errs.hasErrors && result.Precedence == 0
 //@   modifies p.errs.hasErrors
+//
+// on_char_class (C12): for every sequence of class tokens the item loop stays inside
+// `chars` (a dash needs an element on both sides). The helper closures and unescape are
+// not under contract: they are treated as arbitrary code.
+//@ func parser.on_char_class
+//@   ensures !isnil(result)
+//@   loop 0 invariant 0 <= i && i <= len(chars)
+//@   skip frame
